@@ -11,6 +11,7 @@ use std::sync::{Mutex, OnceLock};
 static INIT: OnceLock<()> = OnceLock::new();
 static SEEN_SCHEMAS: OnceLock<Mutex<BTreeSet<u64>>> = OnceLock::new();
 static WORLD_POOL: OnceLock<Vec<Vec<u8>>> = OnceLock::new();
+static POISONED: std::sync::atomic::AtomicBool = std::sync::atomic::AtomicBool::new(false);
 
 fn init() {
     INIT.get_or_init(|| {
@@ -22,6 +23,9 @@ fn init() {
 /// the fuzzer process (libFuzzer records the input), a hang trips `-timeout`.
 pub fn c17(data: &[u8]) {
     init();
+    if POISONED.load(std::sync::atomic::Ordering::SeqCst) {
+        return;
+    }
     let pool = WORLD_POOL.get_or_init(|| crate::tape::sample_tapes(1, 0xF00D, 48, 2048));
     let mut t = Tape::new(data);
     let w = &pool[t.below(pool.len())];
@@ -61,9 +65,9 @@ pub fn c17(data: &[u8]) {
                 std::process::abort();
             }
             if m.contains("poisoned") {
-                // a previous panic inside the cache lock poisoned this process (listed under C08);
-                // nothing more can be learned in this process
-                std::process::exit(0);
+                // a previous panic inside the cache lock poisoned this process (purity is C08's
+                // subject): nothing more can be learned from this process
+                POISONED.store(true, std::sync::atomic::Ordering::SeqCst);
             }
         }
         _ => {}
